@@ -13,6 +13,13 @@ ASSUMPTIONS = [
 ]
 
 
+DEFAULT_LEVEL_TEXT = ("Kernel-checked Lean 4 theorems about a hand-written model of the code, for all inputs the property quantifies over; "
+                      "the model is tied to /repo on every run by a differential correspondence run impl | model | spec on generated inputs")
+DEFAULT_LEVEL_NOTE = ("theorems are about the model; model = implementation only as far as the correspondence run shows (differential testing, bounded by "
+                      "generator quality); trusted: Lean kernel, audited axioms (propext, Classical.choice, Quot.sound), harness, comparison script")
+NOT_YET = {}
+
+
 def unhex(s):
     if s == "-":
         return ""
